@@ -288,8 +288,13 @@ class World:
   def owner_of(self, s):
     return '%s_%s' % (self.owner, s) if self.shared() else self.owner
 
+  # Real study ids behind the tokens: chosen so that sloppy name matching shows (SQL LIKE treats '_' as a wildcard and is
+  # case-insensitive: 'st_1' LIKE-matches 'ST-1'; 'st_1' is a prefix of 'st_10').
+  REAL_ID = {'s1': 'st_1', 's2': 'ST-1', 's3': 'st_10'}
+  TOKEN_OF = {v: k for k, v in REAL_ID.items()}
+
   def sid(self, s):
-    return 'shared' if self.shared() else s
+    return 'shared' if self.shared() else self.REAL_ID.get(s, s)
 
   def sname(self, s):
     return '%s/studies/%s' % (self.owner_of(s), self.sid(s))
@@ -372,7 +377,7 @@ class World:
       r = api.GetStudy(vs.GetStudyRequest(name=self.sname(s)))
       return proj_study(r, cfg_of(r), cells)
     if rpc == 'ListStudies':
-      return sorted(x.name.split('/')[-1] for x in api.ListStudies(vs.ListStudiesRequest(parent=self.owner)).studies)
+      return sorted(self.TOKEN_OF.get(x.name.split('/')[-1], x.name.split('/')[-1]) for x in api.ListStudies(vs.ListStudiesRequest(parent=self.owner)).studies)
     if rpc == 'DeleteStudy':
       api.DeleteStudy(vs.DeleteStudyRequest(name=self.sname(s)))
       return 'Empty'
